@@ -152,11 +152,14 @@ def loadFilters (sec : Bytes) : Nat → Nat → Option (List Filter)
       if fs = 0 ∨ fs > sec.length ∨ pos + fs > sec.length ∨ fs > 64 * 1024 * 1024 then none
       else
         let fd := slice sec pos fs
-        -- LoadBloomFilter: 32-byte header, then (size+7)/8 bytes of bits (short reads leave zeros)
+        -- LoadBloomFilter: 32-byte header, then exactly ceil(size/8) bytes of bits; a filter whose header does not
+        -- describe its data (or has no bits / no hash functions / more hash functions than bits) is skipped
         let flt : Filter := { blockOff := off, bits := unle (slice fd 0 8), k := unle (slice fd 8 8), data := fd.drop 32 }
+        let ok := decide (fd.length ≥ 32 ∧ flt.bits ≠ 0 ∧ flt.k ≠ 0 ∧ flt.k ≤ flt.bits ∧
+                          fd.length - 32 = flt.bits / 8 + (flt.bits % 8 + 7) / 8)
         match loadFilters sec fuel (pos + fs) with
         | none => none
-        | some rest => some (flt :: rest)
+        | some rest => some (if ok then flt :: rest else rest)
 
 /-- sstable.OpenReader -/
 def openTable (p : Params) (hash : Bytes → Nat) (file : Bytes) : Option Reader :=
